@@ -17,6 +17,7 @@
 #define MAXEV 2
 #define MAXCALLS (NIN / 4 + 1)
 #include "env.h"
+static unsigned vf_token_code(const char *s) { (void)s; return 0; }
 const char invalid[] = "__invalid__";
 const char line_num[] = "__line_num__";
 const char fastvar[] = "__fastvar__";
